@@ -46,7 +46,7 @@ LEVEL_NOTE = ("Partial proof + correspondence (~4k quick / 100k thorough program
 I32 = 2**31 - 1
 NAMES = ["a", "b", "c", "p(1)", "q(a,b)", "_x", "foo", "r(\"s t\")", "bar(f(1),2)", "aB_9", "z"]
 SHOWS = ["\"str\"", "X", "Foo(1)", "\"a b\"", "1", "-", "a", "p(2)"]
-IDENTS = ["t", "diff", "sum", "f", "g", "x", "end"]
+IDENTS = ["t", "diff", "sum", "f", "g", "x", "end", "_f", "_g2", "_"]      # also names starting with an underscore (a name, not an operator)
 OPS = ["+", "-", "*", "<=", "=", "!=", "..", "<", ">", "/", "?", "@"]
 
 def hexs(b): return progs.hexs(b)
